@@ -32,6 +32,16 @@ def corpus(tier="quick"):
     C.append(("define_description", ["new 0", "desc 0 1 " + hx(ETF_TEXT)]))
     C.append(("define_description_syntax_error", ["new 0", "desc 0 1 " + hx(BAD_TEXT)]))
     C.append(("redefine", ["new 0"] + emit_define(LIST, 0, 0) + emit_define(ETF, 0, 1)))
+    # the object under test is not the one the library touched last: another one was created after it and is
+    # alive, or already freed, when the faulted call starts
+    C.append(("description_after_other_object_alive", ["new 0", "new 2", "desc 0 1 " + hx(ETF_TEXT), "free 2"]))
+    C.append(("description_after_other_object_freed", ["new 0", "new 2", "free 2", "desc 0 1 " + hx(ETF_TEXT)]))
+    C.append(("bad_description_after_other_object_freed", ["new 0", "new 2", "free 2", "desc 0 1 " + hx(BAD_TEXT)]))
+    C.append(("callbacks_after_other_object_freed", ["new 0", "new 2", "free 2"] + emit_define(ETF, 0, 1)))
+    C.append(("parse_after_other_object_freed", ["new 0"] + emit_define(ETF, 0, 1) + ["new 2", "free 2"] +
+              emit_tokens(codes(ETF, "a '+' a '*' a")) + ["parse 0 2 f"]))
+    C.append(("parse_after_other_object_defined", ["new 0"] + emit_define(ETF, 0, 1) + ["new 2"] + emit_define(LIST, 2, 0) +
+              emit_tokens(codes(ETF, "a '+' a '*' a")) + ["parse 0 2 f", "free 2"]))
     sent = codes(ETF, "a '+' a '*' '(' a '+' a ')'")
     bad = codes(ETF, "a '+' '(' '*' a ')' '+' a a")
     for la in (0, 1, 2):
@@ -184,7 +194,8 @@ def count_allocs(exe, steps, warm):
     L = make_case(0, steps, 0, warm)
     c = run.run_text(exe, "\n".join(L) + "\n")[0]
     if c.status != "ok":
-        raise core.HarnessError("fault-free run of a C17 scenario failed: %s %s" % (c.key, c.report[:500]))
+        # the scenario crashes even without a fault: not a harness matter, the sanitizer report is the witness
+        return (c.key or c.status + "@case", c.report[:3000], "\n".join(L) + "\n")
     nb = n_out_before(warm)
     ntest = sum(1 for l in steps if l.split()[0] in ("new", "set", "read", "desc", "parse", "free", "err"))
     test = c.steps[nb:nb + ntest]
@@ -201,10 +212,14 @@ def check(tier):
     total_allocs = 0
     exhaustive = True
     table = []
-    scen = corpus(tier) + random_corpus(rng, 8 if tier == "quick" else 80)
+    scen = corpus(tier) + random_corpus(rng, 8 if tier == "quick" else 240)
     for name, steps in scen:
         for warm in ((False, True) if not name.startswith("random_") else (rng.random() < 0.5,)):
             n = count_allocs(exe, steps, warm)
+            if isinstance(n, tuple):
+                ck.violation(n[0] + ":fault_free_run", "scenario=%s %s" % (name, "warm" if warm else "cold"),
+                             {"scenario": n[2], "variant": "vf", "scenario_name": name, "k": 0, "warm": warm, "report": n[1]})
+                continue
             total_allocs += n
             if tier == "thorough" or n <= 260:
                 ks = list(range(1, n + 1))
@@ -220,7 +235,7 @@ def check(tier):
     counters = sem.merge(ck, res)
     ck.cov["exhaustive"] = exhaustive
     ck.cov["scenarios"] = [{"name": n, "warm": w, "allocations": a, "fault_points_run": k} for n, w, a, k in table]
-    ck.cov["rule"] = ("corpus of %d fixed scenarios x {cold, warm} plus seed-dependent random scenarios (8 quick, 80 "
+    ck.cov["rule"] = ("corpus of %d fixed scenarios x {cold, warm} plus seed-dependent random scenarios (8 quick, 240 "
                       "thorough: pool/random/mutant/`error' grammars, sentence or non-sentence, random flags, callbacks "
                       "or description, cold or warm); the library is compiled with malloc/calloc/realloc/free "
                       "renamed to counting wrappers in the driver; for k = 1..N (N = allocation requests of the "
